@@ -14,7 +14,8 @@ CLASSES = [('fault_free', 1)]
 RULE = ('seeded writer call histories (0-1 main preamble/meta, 1..3 changes, '
         '1..3 files, per-call encoding override from 21 stateless codecs, '
         'indent {0,1,2,4,7,40,default}, line_endings {unset,unix,dos}, '
-        'hostile text alphabet) in 1-3 interleaved pipelines; non-trivial = '
+        'hostile text alphabet) in 1-3 interleaved pipelines, 12 % of the '
+        'readers following their file while it is written; non-trivial = '
         '>= 3 written sections and >= 1 content section with a non-default '
         'knob (own encoding / indent != 4 / explicit line_endings / '
         'non-utf-8 effective encoding); distinct = distinct digest of the '
